@@ -13,8 +13,10 @@
     transport parameters): the model of u_dial None is plain_dial, so they must agree.
     [Retx]: the real uPacketPacker driven packet by packet (harness/quic/udial.go): the first
     flight as (packet number, CRYPTO frames), then losses / acknowledgements through the frames'
-    own handlers and packing calls, each with the retransmission queue before and after it, the
-    ranges it took and its result (nothing / packet / error class). *)
+    own handlers and packing calls (regular, PTO probe, PTO probe with addPingIfEmpty), each with
+    the retransmission queue before and after it, the ranges it took, whether the payload on the
+    wire is exactly what the packer selected, and its result (nothing / packet / error class);
+    [layout] is the spec's QUICFrames layout when it has a non-empty one. *)
 From Coq Require Import List ZArith Bool String.
 From V Require Import Gen.Params Lib.Hex Wire.Varint USpec.Model UDial.Model.
 From V Require Export UDial.Retx.   (* the harness prints rop / rres constructors *)
@@ -34,7 +36,7 @@ Inductive step :=
 Inductive case :=
 | Seq (ps0 : list rp) (keys0 : list (Z * Z)) (sni0 : string) (steps : list step)
 | NilSpec (sizesU : list Z) (tpU : list (Z * string)) (sizesP : list Z) (tpP : list (Z * string))
-| Retx (n : Z) (planned : bool) (flight : list (Z * list (Z * Z))) (ops : list rop).
+| Retx (n : Z) (planned : bool) (layout : option (list lframe)) (flight : list (Z * list (Z * Z))) (ops : list rop).
 
 (* per dial: spec after the dial (parameters, key shares as (group, |Data|), server name),
    extension 57 as a reader sees it, server_name *)
@@ -84,18 +86,27 @@ Definition rres_eqb (m o : rres) : bool :=
   | RErr c, RErr c' => c =? c'
   | _, _ => false
   end.
-Fixpoint retx_ok (planned : bool) (st : rstate) (ops : list rop) : bool :=
+(* AsPacked: the wire must be exactly the packer's frames. Reframed: a builder may reproduce the
+   very same frames, except a QUICFrames layout of the harness, which always adds a PING. *)
+Definition path_ok (layout : option (list lframe)) (m : mpath) (aspacked : bool) : bool :=
+  match m, layout with
+  | AsPacked, _ => aspacked
+  | Reframed, Some _ => negb aspacked
+  | Reframed, None => true
+  end.
+Fixpoint retx_ok (planned : bool) (layout : option (list lframe)) (st : rstate) (ops : list rop) : bool :=
   match ops with
   | [] => true
   | o :: r =>
-    match rstep planned st o with
+    match rstep planned layout st o with
     | None => false
     | Some (st', res) =>
       match o with
-      | RPack _ before _ after obs =>
+      | RPack _ _ before popped after aspacked obs =>
         ranges_eqb (rQueue st) before && ranges_eqb (rQueue st') after && rres_eqb res obs &&
-        (if is_err res then match r with [] => true | _ => false end else retx_ok planned st' r)
-      | _ => retx_ok planned st' r
+        path_ok layout (marshal_path planned layout popped) aspacked &&
+        retx_ok planned layout st' r
+      | _ => retx_ok planned layout st' r
       end
     end
   end.
@@ -104,7 +115,7 @@ Definition model_obs (c : case) : obs :=
   match c with
   | Seq ps0 keys0 sni0 steps => replay (Spec (mkps ps0) None (map mkkey keys0) (hx sni0) [] false) steps
   | NilSpec _ _ _ _ => ONil
-  | Retx n planned flight ops => ORetx (retx_ok planned (RS flight [] []) ops)
+  | Retx n planned layout flight ops => ORetx (retx_ok planned layout (RS flight [] []) ops)
   end.
 
 Definition param_eqb (a b : param) : bool :=
@@ -154,6 +165,6 @@ Definition check_case (c : case) : bool :=
   match c, model_obs c with
   | Seq _ _ _ steps, OSeq l => steps_ok l steps
   | NilSpec su tu sp tp, ONil => zeqb_list su sp && zs_eqb_str tu tp
-  | Retx _ _ _ _, ORetx ok => ok
+  | Retx _ _ _ _ _, ORetx ok => ok
   | _, _ => false
   end.
